@@ -187,3 +187,23 @@ Lemma enc1_cases : forall tbl c, (exists im, lookup tbl c = Some im /\ enc1 tbl 
 Proof. intros tbl c. unfold enc1, is_key. destruct (lookup tbl c); [left; eauto | right; auto]. Qed.
 Lemma enc_app : forall tbl a b, enc tbl (a ++ b) = enc tbl a ++ enc tbl b.
 Proof. intros. unfold enc. apply flat_map_app. Qed.
+
+(* A character-level machine run over an encoding stays in a set of resting states as soon as every image
+   and every pass-through character keeps it there.  (The tag machine of XHTML, the brace machine of
+   LaTeX and the control-line machine of roff are instances.) *)
+Section Machine.
+Variables (Q : Type) (step : Q -> rune -> Q) (Rest : Q -> Prop) (tbl : table).
+Definition mrun (q : Q) (s : str) : Q := fold_left step s q.
+Hypothesis Himg : forall k im q, In (k, im) tbl -> Rest q -> Rest (mrun q im).
+Hypothesis Hpass : forall c q, is_key tbl c = false -> Rest q -> Rest (step q c).
+Lemma mrun_app q a b : mrun q (a ++ b) = mrun (mrun q a) b.
+Proof. apply fold_left_app. Qed.
+Lemma enc_rests : forall s q, Rest q -> Rest (mrun q (enc tbl s)).
+Proof.
+  induction s as [|c s IH]; intros q Hq; [exact Hq|].
+  cbn [enc flat_map]. fold (enc tbl s). rewrite mrun_app. apply IH.
+  destruct (enc1_cases tbl c) as [(im & Hl & ->)|[Hk ->]].
+  - eapply Himg; [apply lookup_in; exact Hl| exact Hq].
+  - cbn. apply Hpass; assumption.
+Qed.
+End Machine.
